@@ -9,6 +9,7 @@ from ..callgraph import callgraph
 from .. import guards
 from .. import tok as T
 from .struct import _cev, _Stop
+from .em import dominating_stmts
 
 
 # ----------------------------------------------------------------------------- IX2s
@@ -60,14 +61,32 @@ def ix2s(model):
                         and getattr(e.left.func, 'id', '') == 'len' and unparse(e.left.args[0]) == v:
                     return True
                 return False
+            from ..flow import always_exits
+            dom_exit = [d for d in dominating_stmts(n) if isinstance(d, ast.If) and always_exits(d.body)
+                        and isinstance(d.test, ast.UnaryOp) and isinstance(d.test.op, ast.Not)
+                        and isinstance(d.test.operand, ast.Name) and d.test.operand.id == v]
             if guards.has_fact(n, pred):
                 r.ok(n, '%s[%s] under a truth / length test of %s' % (v, unparse(n.slice), v),
+                     nontrivial=True)
+            elif dom_exit and _only_grows(f, v, dom_exit[-1], n):
+                r.ok(n, '`if not %s: <exit>` dominates and %s only grows afterwards' % (v, v),
                      nontrivial=True)
             else:
                 r.fail(n, '%s[%s] is evaluated although %s: IndexError' % (v, unparse(n.slice), why),
                        witness='an input for which nothing precedes / the text is blank, e.g. '
                                '\\item[x] at the very start of the text')
     return r
+
+
+def _only_grows(fn, v, guard, use):
+    """between the guard and the use, v is re-bound only by concatenations that contain v"""
+    for n in iter_scope(fn.node):
+        if isinstance(n, ast.Assign) and any(isinstance(t, ast.Name) and t.id == v for t in n.targets) \
+                and guard.lineno < n.lineno <= use.lineno:
+            if not (isinstance(n.value, ast.BinOp) and isinstance(n.value.op, ast.Add)
+                    and any(isinstance(x, ast.Name) and x.id == v for x in ast.walk(n.value))):
+                return False
+    return True
 
 
 # ----------------------------------------------------------------------------- IX6
@@ -113,17 +132,36 @@ def ix6(model):
 
 
 # ----------------------------------------------------------------------------- ML2
-def _stack_table(model, fn, tokname, stack_pred, r):
-    """decision table {(back, hard, deep): (action, value text)} of a language-stack update"""
-    # find the If on <tok>.back
+def _stack_table(model, fn, tokname, stack_pred0, r):
+    """decision table {(back, hard, deep): [(action, value text)]} of a language-stack update"""
+    def stack_pred(e):
+        if stack_pred0(e):
+            return True
+        if isinstance(e, ast.Name):
+            vals = T.resolve_local(model, e)
+            return bool(vals) and all(v is not e and stack_pred0(v) for v in vals)
+        return False
+
+    def mentions_back(t):
+        return any(isinstance(x, ast.Attribute) and x.attr == 'back' and unparse(x.value) == tokname
+                   for x in ast.walk(t))
     top = None
     for n in iter_scope(fn.node):
-        if isinstance(n, ast.If) and isinstance(n.test, ast.Attribute) and n.test.attr == 'back' \
-                and unparse(n.test.value) == tokname:
+        if isinstance(n, ast.If) and mentions_back(n.test) and not (
+                isinstance(n._parent, ast.If) and n in n._parent.orelse and mentions_back(n._parent.test)):
             top = n
             break
     if top is None:
         return None
+
+    def val_text(e):
+        if isinstance(e, ast.Name):
+            vals = T.resolve_local(model, e)
+            if len(vals) == 1 and vals[0] is not e:
+                return val_text(vals[0])
+        if isinstance(e, ast.Tuple):
+            return '(' + ','.join(val_text(x) for x in e.elts) + ')'
+        return unparse(e)
 
     def actions(stmts, env):
         out = []
@@ -132,7 +170,7 @@ def _stack_table(model, fn, tokname, stack_pred, r):
                 try:
                     c = _ev(s.test, env)
                 except _Stop:
-                    return ['?']
+                    return [('?', unparse(s.test))]
                 out += actions(s.body if c else s.orelse, env)
             elif isinstance(s, ast.Expr) and isinstance(s.value, ast.Call) \
                     and isinstance(s.value.func, ast.Attribute) and stack_pred(s.value.func.value):
@@ -140,12 +178,12 @@ def _stack_table(model, fn, tokname, stack_pred, r):
                 if m == 'pop':
                     out.append(('POP', ''))
                 elif m == 'append':
-                    out.append(('PUSH', unparse(s.value.args[0])))
+                    out.append(('PUSH', val_text(s.value.args[0])))
                 else:
                     out.append(('?', m))
             elif isinstance(s, ast.Assign) and isinstance(s.targets[0], ast.Subscript) \
                     and stack_pred(s.targets[0].value):
-                out.append(('REPLACE', unparse(s.value)))
+                out.append(('REPLACE', val_text(s.value)))
             elif isinstance(s, (ast.Assign, ast.Expr, ast.Pass)):
                 pass
             else:
@@ -161,6 +199,9 @@ def _stack_table(model, fn, tokname, stack_pred, r):
             return env['deep']
         if isinstance(e, ast.UnaryOp) and isinstance(e.op, ast.Not):
             return not _ev(e.operand, env)
+        if isinstance(e, ast.BoolOp):
+            vals = [_ev(x, env) for x in e.values]
+            return all(vals) if isinstance(e.op, ast.And) else any(vals)
         raise _Stop(unparse(e))
     table = {}
     for back, hard, deep in itertools.product((True, False), repeat=3):
@@ -195,11 +236,15 @@ def ml2(model):
         back, hard, deep = key
         want = 'POP' if (back and deep) else ('NONE' if back else ('REPLACE' if hard else 'PUSH'))
         for name, tab, val_ok in (('splitter', t1, lambda v: v == tname + '.lang'),
-                                  ('parser', t2, lambda v: v.replace(' ', '').endswith(',%s.lang)' % tokpar))):
+                                  ('parser', t2, lambda v: v.replace(' ', '').replace('\n', '').endswith(',%s.lang)' % tokpar))):
             acts = tab[key]
             got = acts[0][0] if len(acts) == 1 else ('NONE' if not acts else '?')
             label = 'back=%s hard=%s deeper-than-1=%s' % key
-            if got != want:
+            if got == '?' or any(a[0] == '?' for a in acts):
+                r.undec(f1.node if name == 'splitter' else f2.node,
+                        '%s stack: update for %s not interpreted: %s' % (name, label, acts))
+                r.instances += 1
+            elif got != want:
                 r.fail(f1.node if name == 'splitter' else f2.node,
                        '%s stack: for %s the action is %s, expected %s' % (name, label, acts, want),
                        stmt='%s stack %s' % (name, label),
